@@ -67,3 +67,70 @@ package utils
 //@   at-return {C06} [nothing-is-handed-on-unhashed] ensures called("hash.Hash.Write")
 //@   at-return {C06} [end-of-stream-passes-only-after-the-digest-matched] when ret1 == io.EOF && errors.Is(readerr, io.EOF) && hr.sum != "" :: \
 //@        ensures called("utils.HashReader.Sum") && result("utils.HashReader.Sum", 0) == hr.sum
+
+// ---- C12: aws-chunked readers — a stream is reported as complete only after its end was verified ------------
+// (The rejection half of the property, per function. That the decoded bytes equal the payload for every
+// fragmentation is a statement about the whole parser state machine and is not under contract.)
+//
+// Unsigned reader: Read reports io.EOF only after readTrailer returned nil; readTrailer returns nil only after
+// validateChecksum did, and validateChecksum only when the computed and the announced checksum are equal; the chunk
+// payload is read through the tee that feeds the hash; none of the helpers reports a bare io.EOF.
+//@ func (*UnsignedChunkReader) extractChunkSize
+//@   ensures {C12} [a-missing-size-line-is-not-a-clean-end] err != io.EOF
+//@ func (*UnsignedChunkReader) readAndSkip
+//@   ensures {C12} [a-cut-stream-is-not-a-clean-end] ret0 != io.EOF
+//@ func (*UnsignedChunkReader) validateChecksum
+//@   frame none
+//@   ensures {C12} [a-mismatch-is-not-a-clean-end] ret0 != io.EOF
+//@   at-return {C12} [nil-only-for-equal-checksums] when ret0 == nil :: ensures called("base64.Encoding.EncodeToString") && result("base64.Encoding.EncodeToString", 0) == ucr.expectedChecksum \
+//@        && arg("base64.Encoding.EncodeToString", 1) == result("hash.Hash.Sum", 0)
+//@ func (*UnsignedChunkReader) readTrailer
+//@   ensures {C12} [a-cut-trailer-is-not-a-clean-end] ret0 != io.EOF
+//@   at-return {C12} [nil-only-after-the-checksum-matched] when ret0 == nil :: ensures called("utils.UnsignedChunkReader.validateChecksum") && result("utils.UnsignedChunkReader.validateChecksum", 0) == nil
+//@ func (*UnsignedChunkReader) Read
+//@   at-call io.ReadFull {C12} [payload-is-read-through-the-hashing-tee] requires called("io.TeeReader") && $0 == result("io.TeeReader", 0) && arg("io.TeeReader", 0) == iface(ucr.reader) && arg("io.TeeReader", 1) == ucr.hasher
+//@   at-return {C12} [end-of-stream-only-after-the-trailer-was-validated] when ret1 == io.EOF :: ensures called("utils.UnsignedChunkReader.readTrailer") && result("utils.UnsignedChunkReader.readTrailer", 0) == nil
+//
+// Signed reader: Read reports io.EOF only when parseAndRemoveChunkInfo did; parseAndRemoveChunkInfo reports it (other
+// than by handing on the answer of its own recursive call) only after the signature of the terminating chunk and,
+// with a trailer, the trailing checksum and the trailer signature were verified; the three verifications answer nil
+// only for equal values.
+//@ func (*ChunkReader) getChunkStringToSign
+//@   frame none
+//@ func (*ChunkReader) getTrailerChunkStringToSign
+//@   frame none
+//@ func hmac256
+//@   frame none
+//@ func (*ChunkReader) stashAndSkipHeader
+//@   ensures {C12} [not-a-clean-end] ret3 != io.EOF
+// the part of a header kept for the next read is a copy: the caller's buffer is overwritten by that read
+//@   ensures {C12} [the-stash-is-a-private-copy] !samearray(cr.stash, header) && len(cr.stash) == len(header)
+//@ func (*ChunkReader) handleRdrErr
+//@   ensures {C12} [not-a-clean-end] ret3 != io.EOF
+//@ func (*ChunkReader) parseChunkHeaderBytes
+//@   arith assumed
+//@   ensures {C12} [not-a-clean-end] ret3 != io.EOF
+//@ func (*ChunkReader) checkSignature
+//@   ensures {C12} [not-a-clean-end] ret0 != io.EOF
+//@   at-return {C12} [nil-only-for-the-computed-signature] when ret0 == nil :: ensures old(cr.parsedSig) == result("hex.EncodeToString", 0) && called("utils.hmac256")
+//@ func (*ChunkReader) verifyChecksum
+//@   ensures {C12} [not-a-clean-end] ret0 != io.EOF
+//@   at-return {C12} [nil-only-for-equal-checksums] when ret0 == nil :: ensures result("base64.Encoding.EncodeToString", 0) == cr.parsedChecksum
+//@ func (*ChunkReader) verifyTrailerSignature
+//@   ensures {C12} [not-a-clean-end] ret0 != io.EOF
+//@   at-return {C12} [nil-only-for-the-computed-signature] when ret0 == nil :: ensures result("hex.EncodeToString", 0) == cr.trailerSig
+//@ func (*ChunkReader) parseAndRemoveChunkInfo
+//@   let recursed = called("utils.ChunkReader.parseAndRemoveChunkInfo")
+//@   at-return {C12} [end-only-after-the-final-signature-was-verified] when ret1 == io.EOF && !recursed :: ensures called("utils.ChunkReader.checkSignature") && result("utils.ChunkReader.checkSignature", 0) == nil
+//@   at-return {C12} [end-only-after-the-trailer-was-verified] when ret1 == io.EOF && !recursed && cr.trailer != "" :: ensures called("utils.ChunkReader.verifyChecksum") && result("utils.ChunkReader.verifyChecksum", 0) == nil \
+//@        && called("utils.ChunkReader.verifyTrailerSignature") && result("utils.ChunkReader.verifyTrailerSignature", 0) == nil
+//@ func (*ChunkReader) Read
+//@   at-return {C12} [end-of-stream-only-from-the-terminating-chunk] when ret1 == io.EOF :: ensures called("utils.ChunkReader.parseAndRemoveChunkInfo") && result("utils.ChunkReader.parseAndRemoveChunkInfo", 1) == io.EOF
+//
+// Selection: the decoder returned is the one built for the declared payload type, handed back as it is.
+//@ func getPayloadTypeNotSupportedErr
+//@   frame none
+//@   ensures {C12} [an-error] ret0 != nil
+//@ func NewChunkReader
+//@   at-return {C12} [the-decoder-is-returned-unwrapped] when err == nil :: ensures (called("utils.NewUnsignedChunkReader") && ret0 == iface(result("utils.NewUnsignedChunkReader", 0))) \
+//@        || (called("utils.NewSignedChunkReader") && ret0 == result("utils.NewSignedChunkReader", 0))
